@@ -69,8 +69,10 @@ type line struct {
 // Exec runs path on a fresh model and returns what the last step observed. With an empty path it
 // reports the initial state.
 func Exec(f Factory, params, scratch string, path []string) (actions []string, ln line, err error) {
-	dir, err := os.MkdirTemp(scratch, "x")
-	if err != nil {
+	// a fixed path per worker process: models may keep a template of their initial world next to it
+	dir := scratch + "/w"
+	_ = os.RemoveAll(dir)
+	if err := os.MkdirAll(dir, 0o755); err != nil {
 		return nil, ln, err
 	}
 	defer os.RemoveAll(dir)
